@@ -18,7 +18,10 @@ def key_pool(spec):
                 ks.add(p['name'].replace('_', '-'))
         ks.update(c.get('kwonly', []))
     ks.update(['foreign_key', 'kind', 'verif_unknown_key', 'self',
-               '_yatiml_extra', 'return', 'args', 'kwargs', 'cls'])
+               '_yatiml_extra', 'return', 'args', 'kwargs', 'cls',
+               # key names that look like format fields (messages are built
+               # from key names) or are no identifiers
+               '{x}', '{}', '{0}', 'a{', '%s', '%(k)s', '2nd', 'gr\u00f6\u00dfe'])
     return sorted(ks)
 
 
